@@ -215,8 +215,13 @@ pub fn eval_case(case: &Case, st: &mut Stats) -> Vec<Fail> {
             // declares a non-empty default namespace cannot be written in XML at all (its own start tag puts
             // it into that namespace); no repair can exist without overriding that declaration, so such
             // trees are outside the clause.
+            // The same goes for a declaration of a reserved prefix (xmlns, or xml bound to another namespace) and
+            // for an attribute without namespace that is called xmlns: XML has no spelling for them as such.
             fn inexpressible(a: &A) -> bool {
-                (a.k == K::Elem && a.ns.is_empty() && a.nss.iter().any(|d| d.name.is_empty() && !d.ns.is_empty())) || a.ch.iter().any(inexpressible)
+                (a.k == K::Elem && a.ns.is_empty() && a.nss.iter().any(|d| d.name.is_empty() && !d.ns.is_empty()))
+                    || a.nss.iter().any(|d| d.name == "xmlns" || (d.name == "xml" && d.ns != XML_NS))
+                    || a.attrs.iter().any(|x| x.ns.is_empty() && x.name == "xmlns")
+                    || a.ch.iter().any(inexpressible)
             }
             if inexpressible(&expected) {
                 st.bump("inexpressible_skipped");
@@ -410,6 +415,28 @@ pub fn run(tier: Tier) -> i32 {
             for f in fails {
                 stats.fail(&case, f);
             }
+        }
+    }
+    // reserved names and namespaces ("for any tree at all"): the XML namespace bound to something other than the xml
+    // prefix, the xml prefix bound elsewhere, an attribute or a prefix spelled xmlns. None of these has a faithful
+    // spelling as such: the serialiser must find one (the xml prefix is always available) or answer with an error
+    for t in [
+        A::el(XML_NS, "a").decl("", XML_NS).child(A::el(XML_NS, "b")),
+        A::el(XML_NS, "a").decl("foo", XML_NS).attr(XML_NS, "lang", "en"),
+        A::el("", "a").decl("foo", XML_NS).attr(XML_NS, "lang", "en").child(A::el(XML_NS, "b")),
+        A::el("", "a").decl("xml", "urn:other").attr(XML_NS, "lang", "en"),
+        A::el("urn:other", "a").decl("xml", "urn:other"),
+        A::el("", "a").attr("", "xmlns", "urn:v").child(A::el("", "c")),
+        A::el(X, "b").decl("", X).attr("", "xmlns", "v"),
+        A::el("", "a").decl("xmlns", X).attr(X, "foo", "v"),
+        A::el(X, "a").decl("xmlns", X),
+        A::el("", "a").child(A::el("", "xmlns").attr(X, "xmlns", "1").decl("p", X)),
+    ] {
+        let case = Case::Layout { tree: t, placement: 0 };
+        let fails = eval_case(&case, &mut stats);
+        stats.bump("reserved_name_cases");
+        for f in fails {
+            stats.fail(&case, f);
         }
     }
     // element-less and multi-element fragments through create_missing_prefixes
